@@ -43,6 +43,12 @@ pub uninterp spec fn is_eof(e: IoErr) -> bool;
 #[verifier::external_body] fn io_is_unexpected_eof(e: &IoErr) -> (r: bool) ensures r == is_eof(*e) { e.e.kind() == std::io::ErrorKind::UnexpectedEof }
 #[verifier::external_body] fn io_to_error(e: IoErr) -> (r: Error) ensures r is Io { Error::Io(e) }
 #[verifier::external_body] fn le_u32_of(b: [u8; 4]) -> (r: u32) ensures r == unle4(b@) { u32::from_le_bytes(b) }
+// slice forms of the same helpers (a reader written over `&[u8]` pieces instead of owned buffers)
+#[verifier::external_body] fn split_at_vec(v: &Vec<u8>, k: usize) -> (r: (&[u8], &[u8])) requires k <= v@.len() ensures r.0@ == v@.subrange(0, k as int), r.1@ == v@.subrange(k as int, v@.len() as int) { v.split_at(k) }
+#[verifier::external_body] fn le_u32_of_slice(b: &[u8]) -> (r: u32) requires b@.len() >= 4 ensures r == unle4(b@.subrange(0, 4)) { u32::from_le_bytes([b[0], b[1], b[2], b[3]]) }
+#[verifier::external_body] fn crc32_hash_slice(d: &[u8]) -> (r: u32) ensures r == crc32(d@) { unimplemented!() }
+#[verifier::external_body] fn bincode_decode_record_slice(d: &[u8]) -> (r: Result<WalRecord>)
+    ensures r is Ok <==> decode(d@) is Some, r is Ok ==> r->Ok_0 == decode(d@)->0 { unimplemented!() }
 #[verifier::external_body] fn crc32_hash(d: &Vec<u8>) -> (r: u32) ensures r == crc32(d@) { unimplemented!() }
 #[verifier::external_body] fn bincode_decode_record(d: &Vec<u8>) -> (r: Result<WalRecord>)
     ensures r is Ok <==> decode(d@) is Some, r is Ok ==> r->Ok_0 == decode(d@)->0 { unimplemented!() }
@@ -59,6 +65,12 @@ impl ByteReader {
         ensures r is Ok, r->Ok_0 <= 4, r->Ok_0 <= old(self).rest().len(), r->Ok_0 == 0 ==> old(self).rest().len() == 0,
                 final(buf)@.subrange(0, r->Ok_0 as int) == old(self).rest().subrange(0, r->Ok_0 as int),
                 final(self).rest() == old(self).rest().subrange(r->Ok_0 as int, old(self).rest().len() as int),
+    { unimplemented!() }
+    /// `reader.by_ref().take(n).read_to_end(&mut buf)`: ASSUMED std contract - appends the next min(n, what is left) bytes and consumes them
+    #[verifier::external_body] fn read_up_to(&mut self, n: u64, buf: &mut Vec<u8>) -> (r: std::result::Result<usize, IoErr>)
+        ensures r is Ok,
+                final(buf)@ == old(buf)@ + old(self).rest().subrange(0, if n <= old(self).rest().len() { n as int } else { old(self).rest().len() as int }),
+                final(self).rest() == old(self).rest().subrange(if n <= old(self).rest().len() { n as int } else { old(self).rest().len() as int }, old(self).rest().len() as int),
     { unimplemented!() }
     #[verifier::external_body] fn read_exact_vec(&mut self, buf: &mut Vec<u8>) -> (r: std::result::Result<(), IoErr>)
         ensures final(buf)@.len() == old(buf)@.len(),
@@ -267,10 +279,21 @@ def io_rules(f):
     f.resub_opt('R41', r'Err\(e\.into\(\)\)', 'Err(io_to_error(e))')
     # `X?;` on an io::Result inside a fn returning grafeo's Result: the definition of `?` with `From<io::Error> for Error`
     f.resub_opt('R41', r'(reader\.read\w*\(&mut \w+\))\?', r'(match \1 { Ok(v) => v, Err(e) => return Err(io_to_error(e)) })')
-    f.resub('R31', r'u32::from_le_bytes\((\w+)\)', r'le_u32_of(\1)')
-    f.resub('E1', r'crc32fast::hash\(&(\w+)\)', r'crc32_hash(&\1)')
-    f.resub('E1', r'let \((\w+), _\): \(WalRecord, _\) =\s*bincode::serde::decode_from_slice\(&(\w+), bincode::config::standard\(\)\)\s*\.map_err\(\|e\| Error::Serialization\(e\.to_string\(\)\)\)\?;',
-            r'let \1: WalRecord = bincode_decode_record(&\2)?;')
+    f.resub_opt('R31', r'reader\.by_ref\(\)\.take\(([^;]+?)\)\.read_to_end\(&mut (\w+)\)\?', r'(match reader.read_up_to(\1, &mut \2) { Ok(v) => v, Err(e) => return Err(io_to_error(e)) })')
+    f.resub_opt('X1', r'let mut (\w+) = Vec::new\(\);', r'let mut \1: Vec<u8> = Vec::new();')
+    f.resub_opt('R31', r'(?<![\w\.])(\w+)\.split_at\(([^;]+)\);', r'split_at_vec(&\1, \2);')
+    f.resub_opt('R31', r'u32::from_le_bytes\(\[\s*(\w+)\[0\],\s*\1\[1\],\s*\1\[2\],\s*\1\[3\],?\s*\]\)', r'le_u32_of_slice(\1)')
+    f.resub_opt('R31', r'u32::from_le_bytes\((\w+)\)', r'le_u32_of(\1)')
+    f.resub_opt('E1', r'crc32fast::hash\(&(\w+)\)', r'crc32_hash(&\1)')
+    f.resub_opt('E1', r'crc32fast::hash\((\w+)\)', r'crc32_hash_slice(\1)')
+    if 'crc32fast::' in f.text:
+        raise LostAnchor('rule E1 in %s: a use of crc32fast that no helper covers' % f.label)
+    f.resub_opt('E1', r'let \((\w+), _\): \(WalRecord, _\) =\s*bincode::serde::decode_from_slice\(&(\w+), bincode::config::standard\(\)\)\s*\.map_err\(\|e\| Error::Serialization\(e\.to_string\(\)\)\)\?;',
+                r'let \1: WalRecord = bincode_decode_record(&\2)?;')
+    f.resub_opt('E1', r'let \((\w+), _\): \(WalRecord, _\) =\s*bincode::serde::decode_from_slice\((\w+), bincode::config::standard\(\)\)\s*\.map_err\(\|e\| Error::Serialization\(e\.to_string\(\)\)\)\?;',
+                r'let \1: WalRecord = bincode_decode_record_slice(\2)?;')
+    if 'bincode::' in f.text:
+        raise LostAnchor('rule E1 in %s: a use of bincode that no helper covers' % f.label)
     return f
 
 
@@ -317,6 +340,9 @@ def build(repo):
                    ('external_body struct ByteReader', 'R31: stand-in for BufReader<File>; state = bytes not yet consumed'),
                    ('external_body ByteReader::read_exact4', 'ASSUMED std semantics of Read::read_exact (4-byte buffer): fills and consumes exactly 4 bytes or fails with UnexpectedEof; other I/O errors (EIO) are not modelled'),
                    ('external_body ByteReader::read4', 'ASSUMED std semantics of Read::read (4-byte buffer): may transfer fewer bytes than asked for; 0 only at end of file'),
+                   ('external_body ByteReader::read_up_to', 'ASSUMED std semantics of `by_ref().take(n).read_to_end(buf)`'),
+                   ('external_body split_at_vec', 'std slice::split_at (precondition = no panic)'), ('external_body le_u32_of_slice', 'R31: from_le_bytes of the first four bytes of a slice (indexing precondition = no panic)'),
+                   ('external_body crc32_hash_slice', 'E1: crc32fast::hash on a slice'), ('external_body bincode_decode_record_slice', 'E1: bincode decoder on a slice'),
                    ('external_body ByteReader::read_exact_vec', 'ASSUMED std semantics of Read::read_exact (Vec buffer of the given length)'),
                    ('external_body struct PathArg', 'E1: a path'), ('external_body fs_open', 'E1: File::open + BufReader::new: a reader positioned at the start of the file\'s bytes, or an error')]:
         u.trust(w, why)
@@ -333,8 +359,8 @@ def build(repo):
                 Frame::Rec(r, n) => res matches Ok(Some(rr)) && rr == r && final(reader).rest() == old(reader).rest().subrange(n, old(reader).rest().len() as int),
             }''')
     f.body_start('let ghost b = reader.rest();')
-    f.before('let mut checksum_buf', 'proof { assert(data@ =~= b.subrange(4, 4 + len)); }')
-    f.before('let stored_checksum', 'proof { assert(checksum_buf@ =~= b.subrange(4 + len, 8 + len)); assert(reader.rest() =~= b.subrange(8 + len, b.len() as int)); }')
+    f.before('let mut checksum_buf', 'proof { assert(data@ =~= b.subrange(4, 4 + len)); }', optional=True)
+    f.before('let stored_checksum', 'proof { assert(checksum_buf@ =~= b.subrange(4 + len, 8 + len)); assert(reader.rest() =~= b.subrange(8 + len, b.len() as int)); }', optional=True, nth=0)
 
     f = u.method(SRC, 'WalRecovery', 'recover_file').D1().D4().ret('res')
     f.sub('X1', 'path: impl AsRef<Path>', 'path: PathArg')
